@@ -291,6 +291,23 @@ func main() {
 		{"cert-der-twice", "rsa1024", rc2, des3, func(t *pfxTree) {
 			t.certSafe(inTree(func(n *node) { o := n.kids[0].kids[1].kids[0].kids[1].kids[0]; o.val = append(o.val, o.val...) }))
 		}},
+		// attributes (ToPEM only; Decode does not look at them): malformed values must be an error of ToPEM
+		{"attr-friendly-odd-length-keybag", "rsa1024", rc2, des3, func(t *pfxTree) { v := attrValue(t.keyBag, oidFriendly); v.val = append(v.val, 0x41) }},
+		{"attr-friendly-odd-length-certbag", "p256", rc2, des3, func(t *pfxTree) {
+			t.certSafe(inTree(func(n *node) { v := attrValue(n.kids[0], oidFriendly); v.val = v.val[:len(v.val)-1] }))
+		}},
+		{"attr-friendly-one-byte", "p256", des3, des3, func(t *pfxTree) { v := attrValue(t.keyBag, oidFriendly); v.val = []byte{0x41} }},
+		{"attr-friendly-two-values", "rsa1024", rc2, des3, func(t *pfxTree) {
+			set := attrSet(t.keyBag, oidFriendly)
+			set.kids = append(set.kids, &node{tag: 0x1e, val: []byte{0, 0x42}})
+		}},
+		{"attr-friendly-empty-set", "p256", rc2, des3, func(t *pfxTree) { attrSet(t.keyBag, oidFriendly).kids = nil }},
+		{"attr-friendly-utf8string-tag", "rsa1024", rc2, des3, func(t *pfxTree) { attrValue(t.keyBag, oidFriendly).tag = 0x0c }},
+		{"attr-localkeyid-wrong-type", "p256", rc2, des3, func(t *pfxTree) { attrValue(t.keyBag, oidLocalKey).tag = 0x0c }},
+		{"attr-localkeyid-two-values", "rsa1024", rc2, des3, func(t *pfxTree) {
+			set := attrSet(t.keyBag, oidLocalKey)
+			set.kids = append(set.kids, &node{tag: 0x04, val: []byte{1}})
+		}},
 		{"authsafe-trailing", "rsa1024", rc2, des3, func(t *pfxTree) { t.trailAuthSafe = []byte{0x05, 0x00} }},
 		{"keysafe-trailing", "p256", rc2, des3, func(t *pfxTree) { t.trailKeySafe = []byte{0} }},
 		{"encdata-extra-element", "p256", rc2, des3, func(t *pfxTree) { t.encData.kids = append(t.encData.kids, &node{tag: 0x05}) }},
@@ -744,3 +761,17 @@ func (t *pfxTree) close() []byte {
 	mac.kids[0].kids[1].val = m.Sum(nil)
 	return t.root.enc()
 }
+
+var oidFriendly, oidLocalKey = unhex("2a864886f70d010914"), unhex("2a864886f70d010915")
+
+// attrSet returns the SET of values of the bag attribute with the given OID; attrValue its first value.
+func attrSet(bag *node, oid []byte) *node {
+	for _, a := range bag.kids[2].kids {
+		if bytes.Equal(a.kids[0].val, oid) {
+			return a.kids[1]
+		}
+	}
+	panic("attribute not found")
+}
+
+func attrValue(bag *node, oid []byte) *node { return attrSet(bag, oid).kids[0] }
